@@ -123,7 +123,7 @@ pub fn parse_case(case: &Value) -> Value {
             return o;
         }
     };
-    o["toks"] = json!(tokens_json(&toks));
+    o["toks_lexed"] = json!(tokens_json(&toks));
     match guarded(|| parse(&toks)) {
         Err(m) => o["fail"] = json!({"stage": "parse", "status": "panic", "msg": m}),
         Ok(Err(e)) => o["fail"] = json!({"stage": "parse", "status": "err", "msg": e.get_message()}),
